@@ -96,7 +96,11 @@ impl Service {
         let mut perpetual_changed = false;
         if let Some(old_instance) = old_instance {
             instance.register_time = old_instance.register_time;
-            if instance.ephemeral && !instance.from_grpc && old_instance.from_grpc {
+            if instance.ephemeral
+                && !instance.from_grpc
+                && old_instance.from_grpc
+                && old_instance.ephemeral
+            {
                 /*
                 match (old_instance.from_grpc, old_instance.is_from_cluster()) {
                     (true, true) => {
